@@ -166,6 +166,9 @@ func (lp *logProcessor[INPUT, OUTPUT]) forgeLog(
 		if errors.Is(err, postgres.ErrDeadlockDetected) || errors.Is(err, ledgerstore.ErrIdempotencyKeyConflict{}) {
 			return lp.forgeLogRetry(ctx, store, parameters, fn)
 		}
+		if log, output, decided, ikErr := lp.recordedOutcome(ctx, store, parameters); decided {
+			return log, output, ikErr == nil, ikErr
+		}
 		return nil, nil, false, fmt.Errorf("unexpected error while forging log: %w", err)
 	}
 
@@ -210,12 +213,34 @@ func (lp *logProcessor[INPUT, OUTPUT]) forgeLogRetry(
 
 				return log, output, true, nil
 			default:
+				if log, output, decided, ikErr := lp.recordedOutcome(ctx, store, parameters); decided {
+					return log, output, ikErr == nil, ikErr
+				}
 				return nil, nil, false, fmt.Errorf("unexpected error while forging log: %w", err)
 			}
 		}
 
 		return log, output, false, nil
 	}
+}
+
+// recordedOutcome is consulted when an attempt carrying an idempotency key failed for a reason of its
+// own: a concurrent request with the same key may have committed while this one was running (both
+// missed the key in their first lookup), in which case the caller must get the recorded outcome (or the
+// input-mismatch error), never this attempt's own business error.
+func (lp *logProcessor[INPUT, OUTPUT]) recordedOutcome(ctx context.Context, store Store, parameters Parameters[INPUT]) (*ledger.Log, *OUTPUT, bool, error) {
+	if parameters.IdempotencyKey == "" {
+		return nil, nil, false, nil
+	}
+	log, output, err := lp.fetchLogWithIK(ctx, store, parameters)
+	if err != nil {
+		// only the input-mismatch verdict is an answer; any other lookup failure keeps the attempt's own error
+		return nil, nil, errors.Is(err, ErrInvalidIdempotencyInput{}), err
+	}
+	if output == nil {
+		return nil, nil, false, nil
+	}
+	return log, output, true, nil
 }
 
 func (lp *logProcessor[INPUT, OUTPUT]) fetchLogWithIK(ctx context.Context, store Store, parameters Parameters[INPUT]) (*ledger.Log, *OUTPUT, error) {
